@@ -13,10 +13,11 @@ From Verif Require Import Lib.Bytes Lib.Codec Lib.Path Lib.GoLib Sni.Hello Gen.C
 Import ListNotations.
 Local Open Scope N_scope.
 
-(** [int(a)<<8 | int(b)] on two bytes is [a*256 + b]: by computation over all
+(** [int(a)<<8 | int(b)] on two bytes is [a*256 + b]: no wrap occurs, and
+    the disjunction of disjoint bit ranges is checked by computation over all
     65536 pairs. *)
 Definition lor_ok (a b : N) : bool :=
-  (Z.lor (wrap_i64 (go_shl (wrap_i64 (Z.of_N a)) 8)) (wrap_i64 (Z.of_N b)) =? Z.of_N (a * 256 + b))%Z.
+  (Z.lor (Z.of_N a * 256) (Z.of_N b) =? Z.of_N (a * 256 + b))%Z.
 
 Lemma lor_bytes_all :
   forallb (fun a => forallb (lor_ok a) (map N.of_nat (seq 0 256))) (map N.of_nat (seq 0 256)) = true.
@@ -26,6 +27,11 @@ Lemma lor_bytes a b : a < 256 -> b < 256 ->
   Z.lor (wrap_i64 (go_shl (wrap_i64 (Z.of_N a)) 8)) (wrap_i64 (Z.of_N b)) = Z.of_N (a * 256 + b).
 Proof.
   intros Ha Hb.
+  rewrite (wrap_i64_small (Z.of_N a)), (wrap_i64_small (Z.of_N b))
+    by (unfold is_i64, two63z; lia).
+  unfold go_shl. cbn [Z.ltb Z.compare]. rewrite Z.shiftl_mul_pow2 by lia.
+  change (2 ^ 8)%Z with 256%Z.
+  rewrite wrap_i64_small by (unfold is_i64, two63z; lia).
   pose proof (forall_below _ 256 lor_bytes_all a Ha) as H1. cbv beta in H1.
   pose proof (forall_below _ 256 H1 b Hb) as H2. unfold lor_ok in H2.
   now apply Z.eqb_eq in H2.
@@ -58,7 +64,7 @@ Proof.
   { unfold is_bytes in Hb. repeat match goal with H : Forall _ (_ :: _) |- _ => inversion H; subst; clear H end.
     unfold is_byte in *. lia. }
   change (Z.of_nat 8) with 8%Z in *.
-  rewrite lor_bytes by lia.
+  first [rewrite lor_bytes by lia | rewrite Z.lor_comm, lor_bytes by lia].
   go_cases; cbn [rec_len_res]; rewrite ?N2Z.id; go_leaf.
 Qed.
 
@@ -81,6 +87,6 @@ Proof.
   unfold gen_sniproxy_HelloInfo_recLen. cbn [go_isnil]. cbv zeta.
   change 0%Z with (Z.of_nat 0); change 3%Z with (Z.of_nat 3); change 4%Z with (Z.of_nat 4).
   rewrite !go_index_ok_nat, !go_index_nth by (cbn [length]; lia). cbn [nth length Nat.ltb Nat.leb].
-  change (Z.of_nat 8) with 8%Z. rewrite lor_bytes by lia.
+  change (Z.of_nat 8) with 8%Z. first [rewrite lor_bytes by lia | rewrite Z.lor_comm, lor_bytes by lia].
   go_cases; go_arith; try (exfalso; lia); eexists; (split; [reflexivity|]); cbn beta iota; lia.
 Qed.
